@@ -450,6 +450,48 @@ def gen_sites(rng, gen, n, kind):
         cand = [(s_, c_, r_) for s_ in range(ns) for c_ in range(ncol)
                 for r_ in sorted({nrow - 1 - k for k in range(0, nrow, max(1, nrow // 40))} | {nrow - 1, nrow - 2})]
         pos = rng.sample(cand, min(n, len(cand)))
+    elif kind == "rowsorted":      # rows already non-decreasing; inside a row the sites in increasing, decreasing or
+        # random column order (for NP1: SpikeGLX's own order is the decreasing one and needs no sorting)
+        st = rng.randrange(0, total - n + 1)
+        base = [natural(gen, st + i) for i in range(n)] if rng.random() < 0.5 else \
+            [natural(gen, c) for c in rng.sample(range(total), n)]
+        within = rng.choice(["asc", "asc", "random", "one_pair"])
+        ibl = (lambda p: (2 - 2 * p[1] + p[2] % 2)) if gen == "NP1" else (lambda p: p[1])
+        if within == "asc":
+            pos = sorted(base, key=lambda p: (p[0], p[2], ibl(p)))
+        elif within == "random":
+            pos = sorted(base, key=lambda p: (p[0], p[2], rng.random()))
+        else:                          # sorted order with exactly one pair of one row exchanged
+            pos = sorted(base, key=lambda p: (p[0], p[2], -ibl(p)))
+            pairs = [i for i in range(len(pos) - 1) if pos[i][0] == pos[i + 1][0] and pos[i][2] == pos[i + 1][2]]
+            if pairs:
+                i = rng.choice(pairs)
+                pos[i], pos[i + 1] = pos[i + 1], pos[i]
+    elif kind == "extremes":       # the corners of the grid: rows 0, 1, nrow-2, nrow-1 of every shank, every column
+        cand = [(s_, c_, r_) for s_ in range(ns) for c_ in range(ncol) for r_ in (0, 1, nrow - 2, nrow - 1)]
+        order = rng.choice(["shank_desc", "shuffle", "row_desc", "natural"])
+        if order == "shank_desc":          # the later shank first in the table
+            cand.sort(key=lambda p: (-p[0], p[2], p[1]))
+        elif order == "row_desc":
+            cand.sort(key=lambda p: (-p[2], -p[0], p[1]))
+        elif order == "shuffle":
+            rng.shuffle(cand)
+        if n < len(cand):              # keep top-row / row-0 pairs of neighbouring shanks together
+            keep = [p for p in cand if p[2] in (0, nrow - 1)]
+            rest = [p for p in cand if p[2] not in (0, nrow - 1)]
+            cand = (keep + rest)[:max(n, 2)]
+        pos = cand
+        n = len(pos)
+    elif kind == "seam":           # a random table forced to contain (shank s, top row) and (shank s+1, row 0)
+        pos = [natural(gen, c) for c in rng.sample(range(total), n)]
+        forced = []
+        for s_ in range(max(1, ns - 1)):
+            for c_ in rng.sample(range(ncol), rng.randrange(1, ncol + 1)):
+                forced += [((s_ + 1) % ns, c_, 0), (s_, c_, nrow - 1)]       # later shank first
+        pos = list(dict.fromkeys(forced + pos))[:max(n, len(forced))]
+        if rng.random() < 0.5:
+            rng.shuffle(pos)
+        n = len(pos)
     elif kind == "fewrows":        # many ties on the row: a handful of rows, all columns and shanks
         rows = rng.sample(range(nrow), min(nrow, max(1, -(-n // (ns * ncol)))))
         allp = [(s, c, r) for r in rows for s in range(ns) for c in range(ncol)]
@@ -558,7 +600,8 @@ def run(ctx):
         try:
             # ---------------- geometry_from_meta & friends ----------------
             tables = []
-            kinds = ["block", "random", "random", "swaps", "reversed", "fewrows", "interleaved", "highrows"]
+            kinds = ["block", "random", "random", "swaps", "reversed", "fewrows", "interleaved", "highrows", "extremes",
+                 "seam", "rowsorted"]
             ntab = 5000 if ctx.thorough() else 110
             for t in range(ntab):
                 gen = rng.choice(["NP1", "NP1", "NP2.1", "NP2.4", "NP2.4", "NPultra"])
